@@ -171,6 +171,10 @@ def run_check(prop: str, run_rules, *, tier='quick', replay=None, thorough_extra
                 msg = f'{m.rel}: `{old_q}` is not defined; `{new_q}` (body similarity {sim}) is read as the renamed `{old_q}`'
                 ck.notes.append(msg)
                 print(f'  note: {msg}')
+            for caller, helper, line in getattr(m, 'inlined', []):
+                msg = f'{m.rel}: `{helper}` is not a function of the confirmed tree; its call at L{line} of `{caller}` is read in place (extracted helper)'
+                ck.notes.append(msg)
+                print(f'  note: {msg}')
         try:
             run_rules(ck)
         except AnchorError as e:
